@@ -214,6 +214,9 @@ def run(ctx):
         for idx in _subsets(range(len(p))):
             lines.append("submesh %s %s %s" % (fseq(p), fcells(sh), fseq(idx)))
             lines.append("submeshS %s %s %s" % (fseq(p), fcells(sh), fseq(idx)))
+            if len(idx) >= 2:
+                # the chosen points are a SET: the same indices handed over in another order
+                lines.append("submesh %s %s %s" % (fseq(p), fcells(sh), fseq(tuple(reversed(idx)))))
     ctx.compare("exhaustive-submesh", lines)
     # ---- exhaustive: every pair |nu| <= 1, |mu| <= 2 (all shadings), text oracle and semantic oracle
     nus = [(p, sh) for p, sh in small if len(p) <= 1]
@@ -263,6 +266,9 @@ def run(ctx):
         r = rng.random()
         sem = n <= 4 or rng.random() < 0.2
         if r < 0.3:
+            if len(c) >= 2 and rng.random() < 0.4:
+                c = list(c)
+                rng.shuffle(c)
             lines.append("submesh %s %s %s" % (fseq(p), fcells(sh), fseq(c)))
             if sem:
                 lines.append("submeshS %s %s %s" % (fseq(p), fcells(sh), fseq(c)))
